@@ -486,10 +486,14 @@ func run(id, tier string) int {
 			}
 		}
 		// the race detector and the runtime's concurrent-map check report through the process output
-		if !r.timedOut && (bytes.Contains(r.out, []byte("WARNING: DATA RACE")) || bytes.Contains(r.out, []byte("fatal error: concurrent map"))) {
+		lockOrder := id == "C19" && bytes.Contains(r.out, []byte("WARNING: LOCK ORDER INVERSION"))
+		if !r.timedOut && (lockOrder || bytes.Contains(r.out, []byte("WARNING: DATA RACE")) || bytes.Contains(r.out, []byte("fatal error: concurrent map"))) {
 			fp := "C19/data-race"
 			if bytes.Contains(r.out, []byte("fatal error: concurrent map")) {
 				fp = "C19/concurrent-map-access"
+			} else if lockOrder && !bytes.Contains(r.out, []byte("WARNING: DATA RACE")) {
+				// reported by the lock-order tracker the overlay puts behind sync.Mutex / sync.RWMutex (cmd/instr)
+				fp = "C19/lock-order-inversion"
 			}
 			os.MkdirAll(repDir, 0o755)
 			base := fmt.Sprintf("%s-%s-seed%d", r.job.Test, sanitize(fp), r.seed)
@@ -622,6 +626,9 @@ func raceExcerpt(out []byte) string {
 	i := strings.Index(s, "WARNING: DATA RACE")
 	if i < 0 {
 		i = strings.Index(s, "fatal error: concurrent map")
+	}
+	if i < 0 {
+		i = strings.Index(s, "WARNING: LOCK ORDER INVERSION")
 	}
 	if i < 0 {
 		return ""
@@ -784,6 +791,10 @@ func replay(id, path string) int {
 		out, err = runCmd(b.dir, env, 60*time.Minute, b.bin, args...)
 	}
 	io.Copy(os.Stdout, bytes.NewReader([]byte(tail(out, 20000))))
+	if id == "C19" && (bytes.Contains(out, []byte("WARNING: DATA RACE")) || bytes.Contains(out, []byte("fatal error: concurrent map")) || bytes.Contains(out, []byte("WARNING: LOCK ORDER INVERSION"))) {
+		fmt.Printf("\n%s\n\nVIOLATION property=%s replay=%s\n", raceExcerpt(out), id, path)
+		return 1
+	}
 	if err != nil {
 		if bytes.Contains(out, []byte("VERIF-VIOLATION")) {
 			fmt.Printf("\nVIOLATION property=%s replay=%s\n", id, path)
